@@ -383,7 +383,7 @@ def gen_mutations(rng, info, n, allow_manifest=True, allow_retype=True):
         elif r < 0.85:
             d = rng.choice(dirs)
             n_ = rng.choice(['stray', 'new file', 'Manifest', 'Manifest.gz', 'zzz', '.hidden-new',
-                             'foo', 'foobar', 'Manifest.bak'])
+                             'foo', 'foobar', 'Manifest.bak', 'caf\udce9'])     # the last: a name that is not valid UTF-8
             p = n_ if not d else d + '/' + n_
             k = rng.choice(['file', 'file', 'file', 'dir+file', 'fifo', 'symlink'])
             if k == 'fifo' and n_ == 'Manifest':
